@@ -23,7 +23,7 @@ use proptest::prelude::*;
 use proptest::strategy::BoxedStrategy;
 use std::collections::BTreeMap;
 
-const FAMS: &[(u32, Fam)] = &[(5, Fam::U), (4, Fam::K), (1, Fam::L0), (1, Fam::L1), (2, Fam::Lp), (1, Fam::B), (1, Fam::S), (1, Fam::P), (1, Fam::D), (1, Fam::E), (1, Fam::N)];
+const FAMS: &[(u32, Fam)] = &[(5, Fam::U), (4, Fam::K), (1, Fam::L0), (1, Fam::L1), (2, Fam::Lp), (1, Fam::Lb), (1, Fam::B), (1, Fam::S), (1, Fam::P), (1, Fam::D), (1, Fam::E), (1, Fam::N)];
 const MAX_ADD: usize = 20;
 
 fn strategy(tier: Tier) -> BoxedStrategy<Case> {
